@@ -210,6 +210,29 @@ func genC07(t *rapid.T) c07Case {
 		}
 		core := rapid.SampledFrom([][]byte{{0x01, 0x00}, {0x41, 0x01, 0x61}, {0x01, 0xFF}, {0xA5, 0x01, 0x05}, {}}).Draw(t, "core")
 		return c07Case{Gen: "chain", Depth: d, Core: core}
+	case 10:
+		// nested lists that each declare as many children as the remaining bytes allow (the largest count
+		// that a "declared length <= remaining bytes" test lets through)
+		d := rapid.IntRange(2, c07DepthCap).Draw(t, "depth")
+		pad := rapid.IntRange(0, 3000).Draw(t, "padding")
+		nlb := rapid.IntRange(2, 3).Draw(t, "nlb")
+		total := d*(1+nlb) + pad
+		body := make([]byte, 0, total)
+		for i := 0; i < d; i++ {
+			remaining := total - len(body) - 1 - nlb
+			count := remaining / rapid.SampledFrom([]int{1, 1, 2, 3}).Draw(t, "divisor")
+			if nlb == 2 && count > 0xFFFF {
+				count = 0xFFFF
+			}
+			body = append(body, byte(nlb))
+			for k := nlb - 1; k >= 0; k-- {
+				body = append(body, byte(count>>(8*uint(k))))
+			}
+		}
+		for len(body) < total {
+			body = append(body, 0x01, 0x00)
+		}
+		return c07Case{Gen: "nested-overdeclared-lists", Bytes: append(append([]byte(nil), c07Header...), body...), Patch: true}
 	case 9:
 		// wide lists of lists
 		w := rapid.IntRange(1, 255).Draw(t, "width")
